@@ -54,9 +54,14 @@ def _classes():
                     n.parent, n.children, n.is_root, n.is_leaf
                     # derived values too (depth, root, route, subtree): a cache primed here and not
                     # invalidated by a later re-parenting of an ancestor shows up in the final observation
-                    n.depth, n.root, n.max_depth, n.siblings, list(n.ancestors), list(n.descendants), list(n.leaves)
-                    if isinstance(n, Node):
-                        n.sep, n.path_name
+                    try:
+                        n.depth, n.root, n.max_depth, n.siblings, list(n.ancestors), list(n.descendants), list(n.leaves)
+                        if isinstance(n, Node):
+                            n.sep, n.path_name
+                    except RecursionError:
+                        # a cycle is in place (an accepted loop): reading must not turn it into a hook failure
+                        # that the setter rolls back -- the links are what gets observed
+                        pass
 
         @classmethod
         def pre(cls):
@@ -270,7 +275,12 @@ def run_history(case, with_final=True):
     final = []
     if case["cls"] == "Node" and with_final:
         for n in nodes:
-            final.append([n.sep, n.path_name, n.depth])
+            try:
+                final.append([n.sep, n.path_name, n.depth])
+            except RecursionError:
+                # only possible with the checks off after a loop-closing assignment: outside the modelled
+                # domain (the model answers Unmodelled and the case is skipped), nothing to read here
+                final.append(["", "", 0])
     obs = {"trace": trace, "final": final}
     if "lookups" in case:
         # every way of looking an absolute path name up: find_full_path, and find_relative_path(s), which hand a
